@@ -8,6 +8,7 @@ All theorems are about arbitrary rule lists, paths, methods: no bound anywhere.
 Helper lemmas: `Lemmas/Routing*.lean`.
 -/
 import WzVerif.Lemmas.RoutingTop
+import WzVerif.Lemmas.RoutingPriority
 import WzVerif.Gen.RoutingSamples
 namespace Wz.Props.C03
 open Wz Wz.Routing
@@ -483,5 +484,125 @@ theorem match_405_full_false :
       (convOK_of_total (fun r hr => (h2 r hr).1.1.2)) (fun r hr => (h2 r hr).1.1.1) (.inr h4)
       (fun r hr => ⟨(h2 r hr).1.2, (h2 r hr).2⟩) ⟨r, hr, h3⟩
     rw [h1] at this; cases this
+
+
+/-! ### priority -/
+
+/-- rule `r` admits the request directly: its pattern matches the path as it stands, for the
+request method and protocol -/
+def admitsDirect (r : Rule) (q : Req) (dom path : Str) : Bool :=
+  ruleOK q r && (walkVia .direct r.parts (segments dom path)).isSome
+
+/-- **match_priority.** The rule `MapAdapter.match` returns is minimal in the specificity order among
+the rules that admit the request directly: no such rule is strictly more specific (`specLt`: at the
+first part where the two rules differ, a literal part beats a variable one, and of two variable parts
+the lighter `Weighting` wins). No hypothesis on the map: this holds for arbitrary rule lists and
+whatever the insertion order was. -/
+theorem match_priority {cfg : MapCfg} {specs : List RuleSpec} {m : RMap} (hm : mkMap cfg specs = some m)
+    (a : Adapter) (pathInfo : Str) (method : Option Str) (qa : QueryArgs) (ws : Option Bool)
+    {r : Rule} {vals : List (Str × Value)}
+    (h : matchAdapter m a pathInfo method qa ws = .matched r vals) :
+    ∀ r' ∈ m.rules, r'.spec.buildOnly = false →
+      admitsDirect r' (reqOf a method ws) (domainPartOf m.cfg a) (pathPart pathInfo) = true →
+      specLt r'.parts r.parts = false := by
+  have hb := mkMap_built hm
+  obtain ⟨vs, hfound, _⟩ := matchSM_ok_inv (matchAdapter_matched_inv h)
+  intro r' hr' hbo' hadm
+  simp only [admitsDirect, Bool.and_eq_true] at hadm
+  obtain ⟨hok', hw'⟩ := hadm
+  obtain ⟨w, hw⟩ := Option.isSome_iff_exists.1 hw'
+  obtain ⟨ps, hi⟩ := found_inTrie hfound
+  have hi0 := hi
+  rw [hb.root_eq, inTrie_buildRoot] at hi0
+  obtain ⟨_, _, rfl⟩ := hi0
+  have hi' : InTrie m.root r'.parts r' := by rw [hb.root_eq, inTrie_buildRoot]; exact ⟨hr', hbo', rfl⟩
+  have hroot : WF m.root ∧ Sorted m.root ∧ UniqPath m.root := by
+    rw [hb.root_eq]; exact ⟨WF.buildRoot _, Sorted.buildRoot _, UniqPath.buildRoot _⟩
+  exact dfs_priority _ m.root hroot.1 hroot.2.1 hroot.2.2 _ _ r vs hfound r.parts r'.parts r' w hi hi' hok' hw
+
+def specsPrio : List RuleSpec :=
+  [ { toks := [.slash, .var (.string 1 none none) "s".toList], endpoint := "s".toList },
+    { toks := [.slash, .var .path "p".toList], endpoint := "p".toList },
+    { toks := [.slash, .var (.int 0 false none none) "i".toList], endpoint := "i".toList },
+    { toks := [.slash, .lit "12".toList], endpoint := "l".toList } ]
+
+-- non-vacuity: on `/12` all four rules admit the path directly; the literal rule (index 3) is returned
+example : (match mkMap {} specsPrio with
+    | some m =>
+      (match matchAdapter m adapter0 "/12".toList none .none none with
+       | .matched r _ => r.idx == 3
+       | _ => false) &&
+      m.rules.all (fun r' => admitsDirect r' (reqOf adapter0 none none) (domainPartOf m.cfg adapter0) (pathPart "/12".toList))
+    | none => false) = true := by decide +kernel
+
+theorem listLt_irrefl {α} {lt : α → α → Bool} (h : SWO lt) (l : List α) : listLt lt l l = false := by
+  cases hl : listLt lt l l with
+  | false => rfl
+  | true => have := (swo_listLt h).asymm l l hl; rw [hl] at this; cases this
+
+/-- two variable parts with the same literal decoration are ordered by the converter weight -/
+theorem weighting_lt_same_statics (n : Int) (st : List (Int × Int)) (w1 w2 : Int) :
+    Weighting.lt ⟨n, st, -1, [w1]⟩ ⟨n, st, -1, [w2]⟩ = decide (w1 < w2) := by
+  simp [Weighting.lt, listLt_irrefl swo_pairLt, listLt, intLt]
+
+/-- **literal_beats_variable.** If two rules share their first parts and then one has a literal part
+where the other has a variable part, the one with the literal is strictly more specific; hence
+(by `match_priority`) when both admit the request directly, the variable rule is never the one returned. -/
+theorem literal_beats_variable (pre : List Part) (c : Str) (p : Part) (hp : p.isDyn = true) (t1 t2 : List Part) :
+    specLt (pre ++ .static c :: t1) (pre ++ p :: t2) = true := by
+  induction pre with
+  | nil =>
+    cases p with
+    | static _ => cases hp
+    | dyn a k b f sf w => simp [specLt, partLt]
+  | cons x xs ih => simp [specLt, ih]
+
+theorem literal_beats_variable_match {cfg : MapCfg} {specs : List RuleSpec} {m : RMap} (hm : mkMap cfg specs = some m)
+    (a : Adapter) (pathInfo : Str) (method : Option Str) (qa : QueryArgs) (ws : Option Bool)
+    {r : Rule} {vals : List (Str × Value)}
+    (h : matchAdapter m a pathInfo method qa ws = .matched r vals)
+    {r1 : Rule} (hr1 : r1 ∈ m.rules) (hbo : r1.spec.buildOnly = false)
+    (hadm : admitsDirect r1 (reqOf a method ws) (domainPartOf m.cfg a) (pathPart pathInfo) = true)
+    (pre : List Part) (c : Str) (p : Part) (hp : p.isDyn = true) (t1 t2 : List Part)
+    (h1 : r1.parts = pre ++ .static c :: t1) : r.parts ≠ pre ++ p :: t2 := by
+  intro h2
+  have := match_priority hm a pathInfo method qa ws h r1 hr1 hbo hadm
+  rw [h1, h2, literal_beats_variable pre c p hp t1 t2] at this
+  cases this
+
+/-- **narrow_beats_broad.** With the live converter weights (int = float = 50 < string = any = uuid = 100
+< path = 200; `conv_table_matches_model`), of two variable parts with the same literal decoration the
+one with the narrower converter is strictly more specific: int/float before string before path. -/
+theorem narrow_beats_broad (pre : List Part) (c1 c2 : Conv) (hw : c1.weight < c2.weight)
+    (a1 b1 a2 b2 : Str) (f1 s1 f2 s2 : Bool) (n : Int) (st : List (Int × Int)) (t1 t2 : List Part) :
+    specLt (pre ++ .dyn a1 c1.kind b1 f1 s1 ⟨n, st, -1, [(c1.weight : Int)]⟩ :: t1)
+           (pre ++ .dyn a2 c2.kind b2 f2 s2 ⟨n, st, -1, [(c2.weight : Int)]⟩ :: t2) = true := by
+  induction pre with
+  | nil =>
+    have hne : (c1.weight : Int) ≠ c2.weight := by omega
+    have : ¬ (Part.dyn a1 c1.kind b1 f1 s1 ⟨n, st, -1, [(c1.weight : Int)]⟩ =
+              Part.dyn a2 c2.kind b2 f2 s2 ⟨n, st, -1, [(c2.weight : Int)]⟩) := by
+      intro h; injection h with _ _ _ _ _ hw'; injection hw' with _ _ _ hl; injection hl with hh; exact hne hh
+    simp only [List.nil_append, specLt, this, if_false, partLt, weighting_lt_same_statics, decide_eq_true_eq]
+    omega
+  | cons x xs ih => simp [specLt, ih]
+
+/-- the class order used by `narrow_beats_broad`, from the model's table (tied to the live one above) -/
+theorem conv_weight_order (fx : Nat) (sg sg' : Bool) (mn mx : Option Int) (fmn fmx : Option Dec)
+    (smin : Nat) (smax slen : Option Nat) :
+    (Conv.int fx sg mn mx).weight < (Conv.string smin smax slen).weight ∧
+    (Conv.float sg' fmn fmx).weight < (Conv.string smin smax slen).weight ∧
+    (Conv.string smin smax slen).weight < Conv.path.weight := by
+  simp [Conv.weight]
+
+-- OPEN (P1): insertion_order_irrelevant — for rule lists that are permutations of each other and have
+-- pairwise distinct part keys where they overlap, `matchSM` is equal.
+--   ∀ cfg specs specs' m m', specs.Perm specs' → mkMap cfg specs = some m → mkMap cfg specs' = some m' →
+--     (no two rules have equal `parts`) → outcome m = outcome m' (up to the rule index)
+-- What is proved instead, for ANY insertion order: the outcome class is determined by
+-- insertion-order-free conditions (`match_sound`, `match_notfound_only_if_partial`, `match_405_iff_partial`:
+-- their right-hand sides mention only membership in the rule list) and the returned rule is always
+-- specificity-minimal (`match_priority`); what is missing is the uniqueness of that minimum under the
+-- distinct-parts hypothesis and the bookkeeping relating rule indices of the two maps.
 
 end Wz.Props.C03
